@@ -330,6 +330,28 @@ fn starting_theta_from_sampling_probability(sampling_probability: f32) -> u64 {
     }
 }
 
+#[cfg(feature = "verif-hooks")]
+impl ThetaHashTable {
+    /// Verification hook: the screening step of `hash_and_screen` applied to an already
+    /// computed 63-bit hash (returns 0 when the hash does not pass the theta threshold).
+    pub fn verif_screen(&self, hash: u64) -> u64 {
+        if hash >= self.theta {
+            return 0;
+        }
+        hash
+    }
+
+    /// Verification hook: log2 of the current table size.
+    pub fn verif_lg_cur_size(&self) -> u8 {
+        self.lg_cur_size
+    }
+
+    /// Verification hook: the raw slot array (0 = empty slot).
+    pub fn verif_raw_entries(&self) -> &[u64] {
+        &self.entries
+    }
+}
+
 #[cfg(test)]
 mod tests {
     use super::*;
